@@ -263,7 +263,7 @@ func init() {
 		Assumptions: []string{
 			"the yield points are placed between the Reassembler's locked regions (hook commit in /repo); interleavings inside a locked region are reached only by the stress phase",
 			"the controlled scheduler serialises workers through channels, so race detection is done in the separate stress phase whose hook adds no synchronisation",
-			"deadlock = the scheduled worker fails to reach its next yield point within 10 s AND the goroutine dump shows it waiting on a mutex under a go-libaudit frame; anything else is inconclusive",
+			"deadlock = the scheduled worker's own stack (polled from 5 ms on) shows it waiting on a mutex under a go-libaudit frame while every other worker is finished or parked between operations; if another worker is parked INSIDE an operation the choice is infeasible (lock held across a yield point) and the schedule is dropped and counted; no yield point reached within 10 s without a lock wait is inconclusive",
 		},
 		Phases: func(tier string) []mon.PhaseSpec {
 			// one single-threaded process per core: goroutine hand-offs stay on one OS thread (23 us per schedule)
